@@ -251,12 +251,22 @@ def run(pid, tier, seed, a, t0):
         tiers = ledger.setdefault("tiers", {})
         for i in items:
             if i.label == "proved" and i.status == "ok" and i.obligation is not None:
+                mc = re.search(r"\[cvc5/tier(\d)\]", i.detail or "")
+                if mc:
+                    tiers[i.iid] = "c" + mc.group(1)
+                    continue
+                if "[tier0/qf]" in (i.detail or ""):
+                    if (i.seconds or 0) > 1.0 or i.iid in tiers:
+                        tiers[i.iid] = "q"
+                    continue
                 mt = re.search(r"\[tier(\d)(/default)?", i.detail or "")
                 nid = i.iid
                 if mt and int(mt.group(1)) > 0:
                     tiers[nid] = "2d" if (mt.group(2) and mt.group(1) == "2") else int(mt.group(1))
-                elif mt and nid in tiers:
-                    del tiers[nid]
+                elif mt and ((i.seconds or 0) > 3.0 or nid in tiers):
+                    # plain tier 0: if it was slow (the quantifier-free attempt used its budget first) or already hinted, say so -
+                    # a hint is never dropped again, otherwise the ledger flips between two states from run to run
+                    tiers[nid] = 0
         json.dump(ledger, open(LEDGER, "w"), indent=0, sort_keys=True)
         print("ledger updated: %d obligation ids for %s" % (len(proved_ids), pid))
     missing = [i for i in ledger.get(pid, []) if isinstance(ledger.get(pid), list) and i not in proved_ids]
